@@ -6,6 +6,8 @@ package main
 // the implementation, and evaluates the property monitors on the implementation's own trace.
 
 import (
+	"math/big"
+	"github.com/elnosh/gonuts/mint/manager"
 	"context"
 	"encoding/hex"
 	"errors"
@@ -87,6 +89,7 @@ type Hist struct {
 	tm    *TM
 	wdb   *WDB
 	cfg   cfgT
+	cfg0  cfgT // the configuration the history started with (the case header); cfg is the current one
 	proj  int64
 	next  int64
 	secrets map[int64]*hSecret
@@ -112,6 +115,7 @@ type Hist struct {
 	cuts   bool     // the history contains cuts/faults/schedules: the counter-based conservation monitor is replaced by the store-based one
 	lastLog []string // storage/Lightning calls made by the last executed operation
 	sigSuffix string // appended to monitor signatures raised while judging a concurrent item
+	between func()  // run once between the next melt quote and its melt
 }
 
 func (c cfgT) S() S {
@@ -119,7 +123,7 @@ func (c cfgT) S() S {
 }
 
 func NewHist(sink *Sink, rng *rand.Rand, scratch string, cfg cfgT, proj int64, prop string) *Hist {
-	h := &Hist{sink: sink, rng: rng, cfg: cfg, proj: proj, next: 100, prop: prop,
+	h := &Hist{sink: sink, rng: rng, cfg: cfg, cfg0: cfg, proj: proj, next: 100, prop: prop,
 		secrets: map[int64]*hSecret{}, bs: map[int64]*hB{}, mq: map[int64]*hMintQ{}, lq: map[int64]*hMeltQ{},
 		fired: map[int64]bool{}, stats: map[string]int{}}
 	h.tm = NewTM(scratch, rng, func(c *mint.Config) {
@@ -177,6 +181,15 @@ func (h *Hist) newB(sec *hSecret, amount uint64, ks int64) *hB {
 	b := &hB{h: h.fresh(), bm: bm, r: r, secret: sec.h}
 	h.bs[b.h] = b
 	return b
+}
+
+// twinB: the same blinded message spelled in upper-case hex: the same point, a different string (the mint keys its
+// signature table by the string it was sent)
+func (h *Hist) twinB(b *hB) *hB {
+	t := &hB{h: h.fresh(), bm: b.bm, r: b.r, secret: b.secret}
+	t.bm.B_ = strings.ToUpper(b.bm.B_)
+	h.bs[t.h] = t
+	return t
 }
 
 // ---------------- error classification (cause of a rejection) ----------------
@@ -681,6 +694,21 @@ func (h *Hist) OpRestart(fee uint, rotate bool) {
 	h.obs = append(h.obs, L(L(A(5)), snap))
 	h.lastSnap = h.snapshotN(true).String()
 	h.stats["op=restart"]++
+}
+
+// Reconfigure: the operator stops the mint, changes limits / MPP support in its configuration and starts it again on the
+// same directory.  Item (4 cfg): the model continues with the new configuration; the restart itself is the usual ORestart.
+func (h *Hist) Reconfigure(c cfgT) {
+	c.feePct, c.fee0 = h.cfg.feePct, h.cfg.fee0
+	h.cfg = c
+	h.tm.Cfg.EnableMPP = c.mpp
+	h.tm.Cfg.Limits = mint.MintLimits{MaxBalance: c.maxBalance,
+		MintingSettings: mint.MintMethodSettings{MaxAmount: c.maxMint},
+		MeltingSettings: mint.MeltMethodSettings{MaxAmount: c.maxMelt}}
+	h.items = append(h.items, L(A(4), c.S()))
+	h.obs = append(h.obs, L(L(A(5)), h.snapshot()))
+	h.stats["op=reconfigure"]++
+	h.OpRestart(h.tm.Cfg.InputFeePpk, false)
 }
 
 func (h *Hist) OpMintQuote(m mode, amount uint64, withKey bool, badKey bool, unitOK bool) *hMintQ {
@@ -1263,6 +1291,45 @@ func (h *Hist) OpRotate(m mode, fee uint) {
 		func(any, opOutcome) { h.tm.deriveKeysets() })
 }
 
+// OpRotateAdmin: the rotation requested through the admin RPC (mint/manager), with the fee as the text the operator typed.
+// A fee that is not a decimal number between 0 and 2^63-1 (what the keysets table can hold) must be refused with nothing changed.
+func (h *Hist) OpRotateAdmin(feeText string) {
+	valid := false
+	var fee uint64
+	if v, ok := new(big.Int).SetString(feeText, 10); ok && feeText != "" && feeText[0] != '+' && feeText[0] != '-' &&
+		v.Sign() >= 0 && v.Cmp(new(big.Int).Lsh(big.NewInt(1), 63)) < 0 {
+		valid, fee = true, v.Uint64()
+	}
+	call := func() (any, error) {
+		_, jerr := manager.VerifServer(h.tm.M).VerifProcess(manager.Request{JsonRPC: "2.0", Method: "rotate_keyset", Params: []string{feeText}, Id: 1})
+		if jerr != nil {
+			return nil, cashu.BuildCashuError(jerr.Message, cashu.StandardErrCode)
+		}
+		return nil, nil
+	}
+	h.stats["op=rotate-admin"]++
+	if valid {
+		op := L(A(10), AU(fee))
+		h.exec(mode{}, op, call, func(any) S { return L(A(5)) }, func(any, opOutcome) { h.tm.deriveKeysets() })
+		return
+	}
+	before := h.snapshot().String()
+	_, err := call()
+	if err == nil {
+		h.tm.deriveKeysets()
+		h.sink.Violate("admin-rotate-accepted-invalid-fee", fmt.Sprintf("rotate_keyset accepted the fee %q", feeText), feeText, LL(h.items).String())
+		if v, ok := new(big.Int).SetString(feeText, 10); ok && v.Sign() >= 0 && v.BitLen() <= 64 {
+			// keep the model in step with what the mint did
+			h.items = append(h.items, L(A(0), L(A(10), AU(v.Uint64()))))
+			h.obs = append(h.obs, L(L(A(5)), h.snapshot()))
+		}
+		return
+	}
+	if after := h.snapshot().String(); after != before {
+		h.sink.Violate("rejected-request-changed-state:rotate-admin", "a refused rotate_keyset changed the observable state", feeText, LL(h.items).String())
+	}
+}
+
 func (h *Hist) OpWatcher(m mode, q *hMintQ) {
 	op := L(A(12), A(q.h))
 	h.tm.LN.mu.Lock()
@@ -1341,7 +1408,7 @@ func (h *Hist) Finish(nontrivial bool) {
 				h.issued, h.paidOut, h.extIn, h.intIn, h.redeemed), LL(h.items).String(), nil)
 		}
 	}
-	c := L(A(5), L(h.cfg.S(), A(h.proj), LL(h.items)))
+	c := L(A(5), L(h.cfg0.S(), A(h.proj), LL(h.items)))
 	h.sink.Add(c, LL(h.obs), nontrivial)
 	for k, v := range h.stats {
 		h.sink.StatN(k, v)
